@@ -22,6 +22,7 @@ import (
 	"sort"
 	"strconv"
 	"strings"
+	"sync"
 	"testing"
 	"time"
 
@@ -175,14 +176,20 @@ func c18Sets() []c18Set {
 
 type c18Range struct {
 	Start, End, Step int64 // ms
+	Instants         bool  // every step is also asked as an instant query (and range == sequence of instants is checked)
 }
 
 func c18Ranges() []c18Range {
 	return []c18Range{
-		// hits sample timestamps (scrape = 15 s): T0-1m … T0+21m every 2 m (before first sample, inside, after last)
-		{Start: c18T0 - 60_000, End: c18T0 + 21*60_000, Step: 120_000},
-		// misses them: T0+4m07.3s … every 47 s, 16 steps
-		{Start: c18T0 + 4*60_000 + 7_300, End: c18T0 + 4*60_000 + 7_300 + 15*47_000, Step: 47_000},
+		// A: hits sample timestamps (scrape = 15 s): T0-1m … T0+21m every 2 m (before first sample, inside, after last); step > scrape
+		{Start: c18T0 - 60_000, End: c18T0 + 21*60_000, Step: 120_000, Instants: true},
+		// B: misses them: T0+4m07.3s … every 47 s, 16 steps; step > scrape
+		{Start: c18T0 + 4*60_000 + 7_300, End: c18T0 + 4*60_000 + 7_300 + 15*47_000, Step: 47_000, Instants: true},
+		// C: step 5 s < scrape interval, T0-30s … T0+20m30s (253 steps; every third one on a sample timestamp): several
+		// evaluation steps between two consecutive samples, hence between two storage records
+		{Start: c18T0 - 30_000, End: c18T0 + 20*60_000 + 30_000, Step: 5_000},
+		// D: step 15 s = scrape interval, T0+7s … (81 steps, never on a sample timestamp of the regular sets)
+		{Start: c18T0 + 7_000, End: c18T0 + 7_000 + 80*15_000, Step: 15_000},
 	}
 }
 
@@ -212,7 +219,20 @@ type c18Gram struct {
 }
 
 var c18RFns = []string{"rate", "increase", "delta", "irate", "idelta", "avg_over_time", "min_over_time", "max_over_time",
-	"sum_over_time", "count_over_time", "last_over_time", "stddev_over_time", "stdvar_over_time"}
+	"sum_over_time", "count_over_time", "last_over_time", "stddev_over_time", "stdvar_over_time",
+	// functions whose reducers carry the raw samples of the previous storage record (engine/prom_functions.go, slice reducers)
+	"quantile_over_time(0.5, %s)", "changes", "resets", "deriv", "predict_linear(%s, 90)", "present_over_time"}
+
+// c18RFnsMore: thorough only.
+var c18RFnsMore = []string{"quantile_over_time(0.9, %s)", "holt_winters(%s, 0.5, 0.25)", "mad_over_time", "absent_over_time"}
+
+// c18Call applies a range function (a name, or a template with %s for the matrix selector) to a matrix selector.
+func c18Call(f, sel string) string {
+	if strings.Contains(f, "%s") {
+		return fmt.Sprintf(f, sel)
+	}
+	return f + "(" + sel + ")"
+}
 
 func c18Grammar(tier string) *c18Gram {
 	g := &c18Gram{
@@ -229,7 +249,7 @@ func c18Grammar(tier string) *c18Gram {
 	if tier == "thorough" {
 		g.matchers = append(g.matchers, `{job=~"b.*"}`, `{job="c"}`, `{instance="x",job=~".+"}`, `{job=""}`, `{instance!~"y|z",job!="b"}`)
 		g.offsets = append(g.offsets, ` offset 37s`, ` offset -1m`)
-		g.rfns = append(append([]string{}, c18RFns...), "changes", "resets", "present_over_time")
+		g.rfns = append(append([]string{}, c18RFns...), c18RFnsMore...)
 		g.scalars = []string{"2", "0"}
 		g.ops = append(g.ops, "%", "^", "<", ">=", "<=", "!=", "< bool", "!= bool")
 		g.fullL1 = true
@@ -270,22 +290,26 @@ func (g *c18Gram) all() []string {
 			for mi := range g.matchers {
 				for oi := range g.offsets {
 					if g.fullL1 || mi == 0 || (oi == 0 && r == g.ranges[0]) {
-						add(f + "(" + g.sel("m", mi, oi, r) + ")")
+						add(c18Call(f, g.sel("m", mi, oi, r)))
 					}
 				}
 			}
 		}
 	}
 	// inner operands for aggregation / binary operators
+	innerFns := append(append([]string{}, c18RFns[:13]...), "changes", "resets", "present_over_time")
+	if !g.fullL1 {
+		innerFns = g.rfns
+	}
 	inner := func(metric string, wide bool) []string {
 		in := []string{metric}
-		for _, f := range g.rfns {
-			in = append(in, f+"("+metric+"["+g.ranges[0]+"])")
+		for _, f := range innerFns {
+			in = append(in, c18Call(f, metric+"["+g.ranges[0]+"]"))
 		}
 		if wide {
 			in = append(in, metric+g.offsets[1], metric+`{job=~"a|b"}`)
-			for _, f := range g.rfns {
-				in = append(in, f+"("+metric+"["+g.ranges[1]+"]"+g.offsets[1]+")")
+			for _, f := range innerFns {
+				in = append(in, c18Call(f, metric+"["+g.ranges[1]+"]"+g.offsets[1]))
 			}
 		}
 		return in
@@ -588,14 +612,15 @@ func c18Diff(want, got *c18Answer) (string, string) {
 // ---------------------------------------------------------------------------------------------------------------
 
 type c18Ref struct {
-	eng *promql.Engine
-	q   c18Queryable
+	eng   *promql.Engine
+	q     c18Queryable
+	cache map[string]*c18Answer // upstream answers do not depend on the storage layout: computed once per (expression, time / range)
 }
 
 func c18NewRef(set *c18Set) *c18Ref {
 	eng := promql.NewEngine(promql.EngineOpts{MaxSamples: 50_000_000, Timeout: time.Minute, LookbackDelta: c18Lookback,
 		EnableAtModifier: true, EnableNegativeOffset: true})
-	return &c18Ref{eng: eng, q: c18Queryable{set}}
+	return &c18Ref{eng: eng, q: c18Queryable{set}, cache: map[string]*c18Answer{}}
 }
 
 func c18FromResult(res *promql.Result, instantT int64) *c18Answer {
@@ -629,6 +654,26 @@ func c18FromResult(res *promql.Result, instantT int64) *c18Answer {
 }
 
 func (r *c18Ref) instant(expr string, t int64) *c18Answer {
+	key := expr + "@" + strconv.FormatInt(t, 10)
+	if a, ok := r.cache[key]; ok {
+		return a
+	}
+	a := r.instant1(expr, t)
+	r.cache[key] = a
+	return a
+}
+
+func (r *c18Ref) rng(expr string, rq c18Range) *c18Answer {
+	key := fmt.Sprintf("%s@%d,%d,%d", expr, rq.Start, rq.End, rq.Step)
+	if a, ok := r.cache[key]; ok {
+		return a
+	}
+	a := r.rng1(expr, rq)
+	r.cache[key] = a
+	return a
+}
+
+func (r *c18Ref) instant1(expr string, t int64) *c18Answer {
 	q, err := r.eng.NewInstantQuery(context.Background(), r.q, nil, expr, time.UnixMilli(t))
 	if err != nil {
 		return &c18Answer{Err: err.Error()}
@@ -637,7 +682,7 @@ func (r *c18Ref) instant(expr string, t int64) *c18Answer {
 	return c18FromResult(q.Exec(context.Background()), t)
 }
 
-func (r *c18Ref) rng(expr string, rq c18Range) *c18Answer {
+func (r *c18Ref) rng1(expr string, rq c18Range) *c18Answer {
 	q, err := r.eng.NewRangeQuery(context.Background(), r.q, nil, expr, time.UnixMilli(rq.Start), time.UnixMilli(rq.End),
 		time.Duration(rq.Step)*time.Millisecond)
 	if err != nil {
@@ -868,34 +913,7 @@ func (s *c18Server) rng(db, expr string, rq c18Range) *c18Answer {
 func (s *c18Server) load(db string, set *c18Set) {
 	s.influx(fmt.Sprintf("create database %q", db), "")
 	s.remoteWrite(db, set)
-	deadline := time.Now().Add(90 * time.Second)
-	for {
-		ok := true
-		why := ""
-		for _, sr := range set.Series {
-			// ask at the last non-stale sample of the series
-			var last c18Smp
-			for _, p := range sr.Samples {
-				if !value.IsStaleNaN(p.V) {
-					last = p
-				}
-			}
-			sel := fmt.Sprintf(`%s{job=%q,instance=%q}`, sr.Labels["__name__"], sr.Labels["job"], sr.Labels["instance"])
-			a := s.instant(db, sel, last.T)
-			k := c18LabelKey(sr.Labels)
-			if a.Err != "" || len(a.Series[k]) != 1 || !c18Close(a.Series[k][0].V, last.V) {
-				ok, why = false, sel+" -> "+a.String()
-				break
-			}
-		}
-		if ok {
-			return
-		}
-		if time.Now().After(deadline) {
-			c18Fatal("visibility barrier timed out for %s: %s", db, why)
-		}
-		time.Sleep(100 * time.Millisecond)
-	}
+	s.barrier(db, set)
 }
 
 // ---------------------------------------------------------------------------------------------------------------
@@ -915,8 +933,8 @@ func c18Feature(e parser.Expr) string {
 		return f
 	case *parser.Call:
 		f := n.Func.Name
-		if len(n.Args) > 0 {
-			if ms, ok := n.Args[0].(*parser.MatrixSelector); ok {
+		for _, a := range n.Args {
+			if ms, ok := a.(*parser.MatrixSelector); ok {
 				if vs, ok := ms.VectorSelector.(*parser.VectorSelector); ok && vs.OriginalOffset != 0 {
 					f += "_offset"
 				}
@@ -1012,9 +1030,10 @@ func c18Children(e parser.Expr) []parser.Expr {
 // ---------------------------------------------------------------------------------------------------------------
 
 type c18Case struct {
-	Set   c18Set `json:"set"`
-	Expr  string `json:"expr"`
-	Mode  string `json:"mode"` // "instant" | "range" | "range_vs_instants"
+	Set    c18Set `json:"set"`
+	Layout string `json:"layout,omitempty"` // storage layout the set is ingested under ("" = default, see c18_layout_test.go)
+	Expr   string `json:"expr"`
+	Mode   string `json:"mode"` // "instant" | "range" | "range_vs_instants"
 	T     int64  `json:"t,omitempty"`
 	Start int64  `json:"start,omitempty"`
 	End   int64  `json:"end,omitempty"`
@@ -1023,10 +1042,13 @@ type c18Case struct {
 
 type c18Runner struct {
 	rep    *kit.Report
-	srv    *c18Server
+	srv    *c18Server // the server holding db (default server, or the small-segment server for the storage layouts)
 	ref    *c18Ref
 	set    *c18Set
 	db     string
+	layout string     // c18LayDefault or one of the storage layouts of c18_layout_test.go
+	defSrv *c18Server // default server and its database of the same set: the reference layout for `layout_changes_answer`
+	defDB  string
 	memo   map[string]string // sub-expression@t -> diff class ("" = agrees)
 	nUpErr int
 }
@@ -1095,9 +1117,14 @@ func (r *c18Runner) report(expr string, pe parser.Expr, mode string, bt int64, r
 	}
 	if ek := r.explain(blamed, pe, mode, bt, rq, cls, diff, want, got); ek != "" {
 		kind = ek
+	} else if lk := r.layoutKind(expr, pe, blamed, mode, bt, rq, want); lk != "" {
+		kind = lk
 	}
 	key := fmt.Sprintf("blamed=%s | expr=%s | set=%s | %s", blamed.String(), expr, r.set.Name, mode)
-	c := c18Case{Set: *r.set, Expr: expr, Mode: mode, T: bt, Start: rq.Start, End: rq.End, Step: rq.Step}
+	if r.layout != c18LayDefault {
+		key = fmt.Sprintf("blamed=%s | expr=%s | set=%s | layout=%s | %s", blamed.String(), expr, r.set.Name, r.layout, mode)
+	}
+	c := c18Case{Set: *r.set, Layout: r.layout, Expr: expr, Mode: mode, T: bt, Start: rq.Start, End: rq.End, Step: rq.Step}
 	where := "t=" + c18Sec(bt)
 	if mode != "instant" {
 		where = fmt.Sprintf("range=[%s,%s]/%s first differing step %s", c18Sec(rq.Start), c18Sec(rq.End), c18Sec(rq.Step), c18Sec(bt))
@@ -1321,8 +1348,9 @@ func c18Trunc(s string) string {
 	return s
 }
 
-// runExpr evaluates one expression on the current set: every step of both ranges as an instant query, both range
-// queries, and range == sequence of instants on the server. At most one violation per (expression, mode).
+// runExpr evaluates one expression on the current set and layout: every step of the ranges marked Instants as an instant
+// query, every range query, and range == sequence of instants on the server. At most one violation per (expression, mode
+// and range).
 func (r *c18Runner) runExpr(expr string) {
 	pe, err := parser.ParseExpr(expr)
 	if err != nil {
@@ -1335,6 +1363,9 @@ func (r *c18Runner) runExpr(expr string) {
 		srvInst := map[int64]*c18Answer{}
 		unsupported := false
 		for _, t := range times {
+			if !rq.Instants {
+				break
+			}
 			want := r.ref.instant(expr, t)
 			if want.Err != "" {
 				r.upstreamError(expr, want.Err)
@@ -1343,7 +1374,7 @@ func (r *c18Runner) runExpr(expr string) {
 			got := r.srv.instant(r.db, expr, t)
 			r.rep.Eval(1)
 			if !want.empty() {
-				r.rep.DistinctNontrivial(kit.Hash(r.set.Name, expr, strconv.FormatInt(t, 10)))
+				r.rep.DistinctNontrivial(kit.Hash(r.set.Name, r.layout, expr, strconv.FormatInt(t, 10)))
 			}
 			if got.Err != "" {
 				if c18Unsupported(got) {
@@ -1373,6 +1404,9 @@ func (r *c18Runner) runExpr(expr string) {
 		}
 		got := r.srv.rng(r.db, expr, rq)
 		r.rep.Eval(1)
+		if !want.empty() {
+			r.rep.DistinctNontrivial(kit.Hash(r.set.Name, r.layout, expr, "range", strconv.FormatInt(rq.Start, 10), strconv.FormatInt(rq.Step, 10)))
+		}
 		if got.Err != "" {
 			if c18Unsupported(got) {
 				r.rep.Count("unsupported", 1)
@@ -1383,6 +1417,9 @@ func (r *c18Runner) runExpr(expr string) {
 		}
 		if cls, diff, bt := r.diffRange(pe, rq, want, got); cls != "" {
 			r.report(expr, pe, "range", bt, rq, cls, diff, want, got)
+		}
+		if !rq.Instants {
+			continue
 		}
 		// range == sequence of instants (server against itself)
 		seq := &c18Answer{Series: map[string][]c18Point{}}
@@ -1414,7 +1451,7 @@ func (r *c18Runner) upstreamError(expr, msg string) {
 	}
 }
 
-func c18RunReplay(rep *kit.Report, srv *c18Server) {
+func c18RunReplay(rep *kit.Report, def, seg *c18Server) {
 	var c c18Case
 	if err := kit.LoadReplay(&c); err != nil {
 		c18Fatal("replay: %v", err)
@@ -1424,14 +1461,27 @@ func c18RunReplay(rep *kit.Report, srv *c18Server) {
 			c.Set.Series[i].Samples[j].V = c18ParseVal(c.Set.Series[i].Samples[j].S)
 		}
 	}
-	db := fmt.Sprintf("c18r_%d", time.Now().UnixNano())
-	srv.load(db, &c.Set)
-	r := &c18Runner{rep: rep, srv: srv, ref: c18NewRef(&c.Set), set: &c.Set, db: db, memo: map[string]string{}}
+	if c.Layout == "" {
+		c.Layout = c18LayDefault
+	}
+	defDB := fmt.Sprintf("c18r_%d", time.Now().UnixNano())
+	def.load(defDB, &c.Set)
+	srv, db := def, defDB
+	if c.Layout != c18LayDefault {
+		if seg == nil {
+			c18Fatal("replay of layout %q needs VERIF_SERVER_URL_SEG", c.Layout)
+		}
+		srv, db = seg, defDB+"_"+c.Layout
+		c18LoadSeg(seg, []c18DB{{set: &c.Set, layout: c.Layout, db: db}})
+	}
+	r := &c18Runner{rep: rep, srv: srv, ref: c18NewRef(&c.Set), set: &c.Set, db: db, layout: c.Layout, defSrv: def, defDB: defDB,
+		memo: map[string]string{}}
 	pe, err := parser.ParseExpr(c.Expr)
 	if err != nil {
 		c18Fatal("replay expression: %v", err)
 	}
 	rq := c18Range{Start: c.Start, End: c.End, Step: c.Step}
+	fmt.Printf("set: %s  layout: %s\n", c.Set.Name, c.Layout)
 	switch c.Mode {
 	case "instant":
 		want, got := r.ref.instant(c.Expr, c.T), srv.instant(db, c.Expr, c.T)
@@ -1472,6 +1522,12 @@ func c18RunReplay(rep *kit.Report, srv *c18Server) {
 	}
 }
 
+type c18Work struct {
+	set    int
+	layout string
+	expr   string
+}
+
 func TestVerifC18(t *testing.T) {
 	rep := kit.NewReport("C18")
 	defer rep.Save()
@@ -1484,13 +1540,20 @@ func TestVerifC18(t *testing.T) {
 			panic(p)
 		}
 	}()
-	u := os.Getenv("VERIF_SERVER_URL")
-	if u == "" {
+	parser.EnableExperimentalFunctions = true // mad_over_time (thorough) is marked experimental upstream
+	newSrv := func(env string) *c18Server {
+		u := os.Getenv(env)
+		if u == "" {
+			return nil
+		}
+		return &c18Server{url: u, hc: &http.Client{Timeout: 120 * time.Second, Transport: &http.Transport{MaxIdleConnsPerHost: 4}}}
+	}
+	def, seg := newSrv("VERIF_SERVER_URL"), newSrv("VERIF_SERVER_URL_SEG")
+	if def == nil {
 		c18Fatal("VERIF_SERVER_URL is not set")
 	}
-	srv := &c18Server{url: u, hc: &http.Client{Timeout: 120 * time.Second, Transport: &http.Transport{MaxIdleConnsPerHost: 4}}}
 	if kit.ReplayPath() != "" {
-		c18RunReplay(rep, srv)
+		c18RunReplay(rep, def, seg)
 		return
 	}
 	tier := kit.Tier()
@@ -1507,38 +1570,121 @@ func TestVerifC18(t *testing.T) {
 		}
 		sets = keep
 	}
-	exprs := c18Grammar(tier).all()
+	gram := c18Grammar(tier)
+	exprs, raw := gram.all(), gram.raw()
 	if e := os.Getenv("VERIF_C18_EXPR"); e != "" {
 		exprs = strings.Split(e, ";;")
+		raw = exprs
+	}
+	layouts := c18SegLayouts(tier)
+	if l := os.Getenv("VERIF_C18_LAYOUTS"); l != "" { // development: "none", or a comma separated list
+		layouts = nil
+		if l != "none" {
+			layouts = c18LayoutList(l)
+		}
+	}
+	if seg == nil && len(layouts) > 0 {
+		c18Fatal("VERIF_SERVER_URL_SEG is not set")
 	}
 	rep.Count("grammar_expressions", 0)
 	if kit.Shard() == 0 {
 		rep.Count("grammar_expressions", int64(len(exprs)))
+		rep.Count("raw_sample_expressions", int64(len(raw)))
 		rep.Count("sample_sets", int64(len(sets)))
+		rep.Count("storage_layouts", int64(1+len(layouts)))
 	}
-	var mine []string
-	for i, e := range exprs {
-		if kit.Mine(i) {
-			mine = append(mine, e)
+	// databases: one per set on the default server, one per (set, layout) on the small-segment server; they are loaded once
+	// (phase "load", a single process) and shared read-only by all workers (phase "query")
+	run := os.Getenv("VERIF_C18_RUN")
+	phase := os.Getenv("VERIF_C18_PHASE")
+	if run == "" {
+		if phase != "" {
+			c18Fatal("VERIF_C18_RUN is not set")
+		}
+		run = fmt.Sprintf("c18_%d", time.Now().UnixNano()%1_000_000_000)
+	}
+	defDB := func(si int) string { return fmt.Sprintf("%s_%s", run, sets[si].Name) }
+	segDB := func(si int, l string) string { return fmt.Sprintf("%s_%s_%s", run, sets[si].Name, l) }
+	if phase == "load" || phase == "" {
+		t0 := time.Now()
+		var wg sync.WaitGroup
+		var failed any
+		for si := range sets {
+			wg.Add(1)
+			go func(si int) {
+				defer wg.Done()
+				defer func() {
+					if p := recover(); p != nil {
+						failed = p
+					}
+				}()
+				def.load(defDB(si), &sets[si])
+			}(si)
+		}
+		var dbs []c18DB
+		for si := range sets {
+			for _, l := range layouts {
+				dbs = append(dbs, c18DB{set: &sets[si], layout: l, db: segDB(si, l)})
+			}
+		}
+		if len(dbs) > 0 {
+			c18LoadSeg(seg, dbs)
+		}
+		wg.Wait()
+		if failed != nil {
+			panic(failed)
+		}
+		rep.Count("databases_loaded", int64(len(sets)+len(dbs)))
+		fmt.Printf("C18: loaded %d + %d databases in %.1fs\n", len(sets), len(dbs), time.Since(t0).Seconds())
+		if phase == "load" {
+			return
 		}
 	}
-	run := fmt.Sprintf("c18_%d_w%d", time.Now().UnixNano()%1_000_000_000, kit.Shard())
-	if p := os.Getenv("VERIF_C18_RUN"); p != "" {
-		run = p // development: fixed database names on a long-running server
-	}
+	// work list in a fixed order, sharded by index: per set the whole grammar on the default layout, then the raw-sample
+	// grammar on every storage layout
+	var work []c18Work
+	n := 0
 	for si := range sets {
-		set := &sets[si]
-		db := fmt.Sprintf("%s_%s", run, set.Name)
-		srv.load(db, set)
-		r := &c18Runner{rep: rep, srv: srv, ref: c18NewRef(set), set: set, db: db, memo: map[string]string{}}
-		for i, e := range mine {
-			if rep.Expired() {
-				return
+		for _, e := range exprs {
+			if kit.Mine(n) {
+				work = append(work, c18Work{si, c18LayDefault, e})
 			}
-			r.runExpr(e)
-			if i < 2 && kit.Shard() < 4 {
-				rep.Sample(12, map[string]any{"set": set.Name, "expr": e})
+			n++
+		}
+		for _, l := range layouts {
+			for _, e := range raw {
+				if kit.Mine(n) {
+					work = append(work, c18Work{si, l, e})
+				}
+				n++
 			}
+		}
+	}
+	refs := map[int]*c18Ref{}
+	runners := map[string]*c18Runner{}
+	nSampled := map[string]int{}
+	for _, w := range work {
+		if rep.Expired() {
+			return
+		}
+		key := sets[w.set].Name + "/" + w.layout
+		r := runners[key]
+		if r == nil {
+			if refs[w.set] == nil {
+				refs[w.set] = c18NewRef(&sets[w.set])
+			}
+			r = &c18Runner{rep: rep, srv: def, ref: refs[w.set], set: &sets[w.set], db: defDB(w.set), layout: w.layout,
+				defSrv: def, defDB: defDB(w.set), memo: map[string]string{}}
+			if w.layout != c18LayDefault {
+				r.srv, r.db = seg, segDB(w.set, w.layout)
+			}
+			runners[key] = r
+		}
+		r.runExpr(w.expr)
+		rep.Count("expressions_on_"+w.layout, 1)
+		if nSampled[key] < 1 && kit.Shard() < 4 {
+			nSampled[key]++
+			rep.Sample(24, map[string]any{"set": sets[w.set].Name, "layout": w.layout, "expr": w.expr})
 		}
 	}
 }
